@@ -69,16 +69,39 @@ theorem handleVerifyCommand_winv (m : M) (h : WInv m.1) (l : Life m.1) : WInv (h
     apply stop_winv
     exact h.frame (by wframe_eq)
 
+theorem hmdStart_winv (m : M) (h : WInv m.1) (hl : m.1.loaded = false) (hd : m.1.dls = []) (hid : m.1.idls = []) :
+    WInv (hmdStart m).1 := by
+  unfold hmdStart
+  split
+  · simp only [onSt_fst]; exact stop_winv _ _ h
+  · simp only [onSt_fst]
+    split
+    · exact h.unloaded (by simp) (by simp) (by simp) (by simpa using hl) (by simpa using hd) (fun _ => by simpa using hid)
+        (h.q.of_peers (by simp))
+    · exact h.unloaded rfl rfl rfl hl hd (fun _ => hid) h.q
+
+theorem hmdAdopt_winv (m : M) (h : WInv m.1) (hl : m.1.loaded = false) (hd : m.1.dls = []) :
+    WInv (hmdAdopt m).1 := by
+  unfold hmdAdopt
+  dsimp only
+  repeat' split
+  all_goals first
+    | (simp only [onSt_fst]
+       apply stop_winv
+       exact h.unloaded rfl rfl rfl hl hd (fun _ => rfl) h.q)
+    | exact hmdStart_winv _ (h.unloaded rfl rfl rfl hl hd (fun _ => rfl) h.q) hl hd rfl
+
 theorem handleMetadataData_winv (m : M) (k i len : Nat) (g : Bool) (h : WInv m.1) (l : Life m.1) :
     WInv (handleMetadataData m k i len g).1 := by
   have hclose : WInv (onSt (closePeerM m k) fun s => { s with mayStartI := !s.info }).1 := by
     simp only [onSt_fst, closePeerM_fst]
     exact h.frame ((closePeer_wframe _ _).trans (by wframe_eq))
-  unfold handleMetadataData
-  dsimp only
+  rw [handleMetadataData_eq]
   split
   · exact h
   · next d hd =>
+    unfold hmdBlock
+    dsimp only
     have hne : m.1.idls ≠ [] := List.ne_nil_of_mem (List.mem_of_find?_eq_some hd)
     have hinfo : m.1.info = false := by
       cases hi : m.1.info
@@ -108,15 +131,7 @@ theorem handleMetadataData_winv (m : M) (k i len : Nat) (g : Bool) (h : WInv m.1
     split
     · simp only [onSt_fst, closePeerM_fst]
       exact h.frame ((hmap _).trans ((closePeer_wframe _ _).trans (by wframe_eq)))
-    split
-    · simp only [onSt_fst]
-      apply stop_winv
-      exact h.unloaded rfl rfl rfl n3 hdl (fun _ => rfl) h.q
-    · simp only [onSt_fst]
-      split
-      · exact h.unloaded (by simp) (by simp) (by simp) (by simpa using n3) (by simpa using hdl) (fun _ => by simp)
-          (h.q.of_peers (by simp))
-      · exact h.unloaded rfl rfl rfl n3 hdl (fun _ => rfl) h.q
+    exact hmdAdopt_winv _ (h.frame (hmap _)) n3 hdl
 
 /-! ### the completion check -/
 
